@@ -54,6 +54,15 @@ Regrid(F, T, v, j) ==
   RDiv(RSumSeq([l \in 1..(Len(F) - 1) |-> RMul(RMul(RInt(v[l]), RInt(Thick(F, l))), Overlap(F, T)[l][j])]),
        RSumSeq([l \in 1..(Len(F) - 1) |-> RMul(RInt(Thick(F, l)), Overlap(F, T)[l][j])]))
 SharedEnds(F, T) == F[1] = T[1] /\ F[Len(F)] = T[Len(T)]
+\* ---- a file's sigma edges relative to another model top.  sigma = (p - top) /
+\* (P - top) with P = 101325 Pa: edges F (in 1/K units) of a file with top vt0
+\* are, relative to top vt1, (F (P - vt0) + K (vt0 - vt1)) / (K (P - vt1));
+\* Resigma gives them in 1/K2 units (ResigmaExact: they are integers there)
+PSurf == 101325
+ResigmaNum(F, K, K2, vt0, vt1, k) == K2 * (F[k] * (PSurf - vt0) + K * (vt0 - vt1))
+ResigmaExact(F, K, K2, vt0, vt1) == \A k \in 1..Len(F) : ResigmaNum(F, K, K2, vt0, vt1, k) % (K * (PSurf - vt1)) = 0
+Resigma(F, K, K2, vt0, vt1) == [k \in 1..Len(F) |-> ResigmaNum(F, K, K2, vt0, vt1, k) \div (K * (PSurf - vt1))]
+
 \* laws
 RowsSumToOne(F, T) == \A l \in 1..(Len(F) - 1) :
   RSumSeq([j \in 1..(Len(T) - 1) |-> Overlap(F, T)[l][j]]) = RInt(1)
